@@ -41,9 +41,25 @@ var (
 type cfgT struct {
 	ns   string
 	from string // "" on client streams
+	// recv: a RECEIVED server-to-server session that was not told its own address: it
+	// learns it from the to attribute of the peer's stream header (real negotiation)
+	recv bool
 }
 
-var cfgs = []cfgT{{nsClient, ""}, {nsServer, localJID.String()}}
+const recvAddr = "capulet.example"
+
+var cfgs = []cfgT{{nsClient, "", false}, {nsServer, localJID.String(), false}, {nsServer, recvAddr, true}}
+
+// mkCfg rebuilds a configuration from the fields of a case line.
+func mkCfg(ns, fromField string) cfgT {
+	cfg := cfgT{ns: ns}
+	if fromField != "-" {
+		b, _ := common.UnHex(fromField)
+		cfg.from = string(b)
+	}
+	cfg.recv = cfg.from == recvAddr
+	return cfg
+}
 
 func (c cfgT) fromField() string {
 	if c.from == "" {
@@ -238,7 +254,14 @@ type replyJob struct {
 }
 
 func newSess(cfg cfgT) (*common.RawSession, error) {
-	return common.NewRawSession(0, cfg.ns, localJID, remoteJID)
+	if cfg.recv {
+		return newRecvSess(cfg)
+	}
+	rs, err := common.NewRawSession(0, cfg.ns, localJID, remoteJID)
+	if err == nil && cfg.from != "" && rs.S.LocalAddr().String() != cfg.from {
+		return nil, fmt.Errorf("LocalAddr() is %q, the session was created for %q", rs.S.LocalAddr(), cfg.from)
+	}
+	return rs, err
 }
 
 func classify(err error) string {
@@ -462,8 +485,21 @@ func (c *ctxT) check(cfg cfgT, cl call, status string, wire []byte, lines []stri
 		return obs
 	}
 	for i := range els {
+		// the from address of a stanza on a server-to-server stream: the caller's, else the
+		// address the session reports as its own (LocalAddr(), verified when the session was made)
+		if ws, ok := els[i][0].(xml.StartElement); ok && cfg.from != "" {
+			if es, ok := expEls[i][0].(xml.StartElement); ok && isStanzaName(es.Name) && ws.Name == es.Name {
+				if got, want := attrValue(ws, "from"), attrValue(es, "from"); got != want {
+					c.fail("from-local-addr", key, lines, fmt.Sprintf("the stanza went out with from=%q, the session's LocalAddr() is %q and the property asks for from=%q; wire %q", got, cfg.from, want, clip(wire)))
+					return obs
+				}
+			}
+		}
 		if ok, why := sameElement(els[i], expEls[i]); !ok {
 			clause := "exact-element"
+			if foreignRawStanza(cfg, den) {
+				key = "raw-top-stanza/foreign-xmlns"
+			}
 			if cl.entry == "encel" || cl.entry == "replyel" || cl.entry == "sendel" {
 				if s, ok := els[i][0].(xml.StartElement); ok {
 					if e, ok := expEls[i][0].(xml.StartElement); ok && s.Name != e.Name {
@@ -476,6 +512,63 @@ func (c *ctxT) check(cfg cfgT, cl call, status string, wire []byte, lines []stri
 		}
 	}
 	return obs
+}
+
+// foreignRawStanza: the element starts with a stanza name without namespace that carries an
+// xmlns attribute naming something else than the stream's content namespace.
+func foreignRawStanza(cfg cfgT, den []xml.Token) bool {
+	if len(den) == 0 {
+		return false
+	}
+	s, ok := den[0].(xml.StartElement)
+	if !ok || s.Name.Space != "" || !isStanzaLocal(s.Name.Local) {
+		return false
+	}
+	for _, a := range s.Attr {
+		if a.Name.Space == "" && a.Name.Local == "xmlns" && a.Value != cfg.ns {
+			return true
+		}
+	}
+	return false
+}
+
+// noForeign takes the foreign xmlns attribute off a raw-spelled top-level stanza (known
+// finding raw-top-stanza/foreign-xmlns): the concurrent scenarios recognise every element on the
+// wire by what the property says it must be.
+func noForeign(cfg cfgT, cl call) call {
+	if !foreignRawStanza(cfg, cl.denoted()) {
+		return cl
+	}
+	strip := func(s xml.StartElement) xml.StartElement {
+		var as []xml.Attr
+		for _, a := range s.Attr {
+			if !(a.Name.Space == "" && a.Name.Local == "xmlns") {
+				as = append(as, a)
+			}
+		}
+		s.Attr = as
+		return s
+	}
+	if cl.start != nil {
+		st := strip(*cl.start)
+		cl.start = &st
+	}
+	if len(cl.toks) > 0 {
+		if s, ok := cl.toks[0].(xml.StartElement); ok && (cl.start == nil || cl.entry == "encel") {
+			cl.toks = append([]xml.Token(nil), cl.toks...)
+			cl.toks[0] = strip(s)
+		}
+	}
+	return cl
+}
+
+func attrValue(s xml.StartElement, local string) string {
+	for _, a := range s.Attr {
+		if a.Name.Local == local {
+			return a.Value
+		}
+	}
+	return ""
 }
 
 func clip(b []byte) string {
@@ -705,6 +798,7 @@ func (c *ctxT) concurrent(cfg cfgT, rnd *common.Rand, nG, nK int, caseNo int) {
 				if cl.start == nil && len(cl.toks) == 0 {
 					continue
 				}
+				cl = noForeign(cfg, cl)
 				break
 			}
 			mk := fmt.Sprintf("m-%d-%d", g, k)
@@ -729,7 +823,7 @@ func (c *ctxT) concurrent(cfg cfgT, rnd *common.Rand, nG, nK int, caseNo int) {
 				big = 3000 + rnd.Intn(9000)
 			}
 			mk := fmt.Sprintf("m-%d-%d", nG, k)
-			cl := withMarker(call{entry: "reply", form: "reader", toks: genElement(rnd, 0, true, big)}, mk)
+			cl := withMarker(noForeign(cfg, call{entry: "reply", form: "reader", toks: genElement(rnd, 0, true, big)}), mk)
 			j := job{cl: cl, mk: mk, idx: len(all)}
 			all = append(all, j)
 			replies = append(replies, j)
@@ -968,11 +1062,7 @@ func Run(r *common.Run) error {
 				continue
 			}
 			if len(f) == 8 && f[0] == "C05" && f[1] == "fault" {
-				cfg := cfgT{ns: f[3]}
-				if f[4] != "-" {
-					b, _ := common.UnHex(f[4])
-					cfg.from = string(b)
-				}
+				cfg := mkCfg(f[3], f[4])
 				k, _ := strconv.Atoi(f[5])
 				ts, err1 := decToks(f[6])
 				nx, err2 := decToks(f[7])
@@ -985,11 +1075,7 @@ func Run(r *common.Run) error {
 			if len(f) != 8 || f[0] != "C05" || f[1] != "tx" {
 				continue
 			}
-			cfg := cfgT{ns: f[3]}
-			if f[4] != "-" {
-				b, _ := common.UnHex(f[4])
-				cfg.from = string(b)
-			}
+			cfg := mkCfg(f[3], f[4])
 			cl := call{entry: f[2], form: f[7]}
 			if f[5] != "-" {
 				ts, err := decToks(f[5])
@@ -1030,7 +1116,7 @@ func Run(r *common.Run) error {
 		case executed == 0 || len(lines) > 1:
 			// a witness of the concurrent runs: the schedule search again, same seed
 			for i := 0; i < 30; i++ {
-				c.concurrent(cfgs[i%2], r.Rnd, 2+r.Rnd.Intn(15), 2+r.Rnd.Intn(6), i)
+				c.concurrent(cfgs[i%len(cfgs)], r.Rnd, 2+r.Rnd.Intn(15), 2+r.Rnd.Intn(6), i)
 			}
 			for i := 0; i < 15; i++ {
 				c.multiSession(r.Rnd, i)
@@ -1042,12 +1128,12 @@ func Run(r *common.Run) error {
 	if r.Race() {
 		// race-detector run: only the concurrent scenarios, more of them
 		for i := 0; i < 150; i++ {
-			c.concurrent(cfgs[i%2], r.Rnd, 2+r.Rnd.Intn(15), 2+r.Rnd.Intn(6), i)
+			c.concurrent(cfgs[i%len(cfgs)], r.Rnd, 2+r.Rnd.Intn(15), 2+r.Rnd.Intn(6), i)
 			if i%3 == 0 {
 				c.multiSession(r.Rnd, i)
 			}
 			if i%10 == 0 {
-				c.autoReply(cfgs[i%2])
+				c.autoReply(cfgs[i%len(cfgs)])
 			}
 		}
 		return nil
@@ -1062,6 +1148,7 @@ func Run(r *common.Run) error {
 		c.flushCorpus(cfg)
 		c.faultCorpus(cfg)
 		c.spellingCorpus(cfg)
+		c.rawTopCorpus(cfg)
 		c.autoReply(cfg)
 	}
 	for _, cfg := range cfgs {
@@ -1077,16 +1164,18 @@ func Run(r *common.Run) error {
 		if i%40 == 0 {
 			big = 4000 + rnd.Intn(70000)
 		}
-		c.one(cfgs[rnd.Intn(2)], c.genCall(rnd, big), "random")
+		c.one(cfgs[rnd.Intn(len(cfgs))], c.genCall(rnd, big), "random")
 	}
 	nFault := r.Pick(150, 3000)
 	for i := 0; i < nFault; i++ {
-		toks := genElement(rnd, 0, true, 0)
-		c.fault(cfgs[rnd.Intn(2)], pickS(rnd, []string{"reader", "tw", "badtok", "badend"}), toks, 1+rnd.Intn(len(toks)-1), genElement(rnd, 0, true, 0))
+		cfg := cfgs[rnd.Intn(len(cfgs))]
+		toks := noForeign(cfg, call{entry: "send", toks: genElement(rnd, 0, true, 0)}).toks
+		next := noForeign(cfg, call{entry: "send", toks: genElement(rnd, 0, true, 0)}).toks
+		c.fault(cfg, pickS(rnd, []string{"reader", "tw", "badtok", "badend"}), toks, 1+rnd.Intn(len(toks)-1), next)
 	}
 	nConc := r.Pick(30, 300)
 	for i := 0; i < nConc; i++ {
-		c.concurrent(cfgs[i%2], rnd, 2+rnd.Intn(15), 2+rnd.Intn(6), i)
+		c.concurrent(cfgs[i%len(cfgs)], rnd, 2+rnd.Intn(15), 2+rnd.Intn(6), i)
 	}
 	nMulti := r.Pick(10, 100)
 	for i := 0; i < nMulti; i++ {
